@@ -26,7 +26,7 @@ FUNCTIONS = c05.FUNCTIONS + ['CellInlining.find_occurrences / compute_inlining_s
 
 def make(task):
     deck_task, flags = task
-    if deck_task[0] in ('dup-union', 'special'):
+    if deck_task[0] in ('dup-union', 'dup-opp', 'special'):
         from . import c01
         deck, pre = c01.make(deck_task)
     else:
@@ -212,6 +212,10 @@ def tasks_for(tier):
     for i in range(6 if tier == 'quick' else 80):
         for fl in ((False, False, False), (True, False, False)):
             out.append((('dup-union', base + 400 + i), fl))
+    # one plane written with opposite normals on two cards (merged only with the senses swapped)
+    for i in range(4 if tier == 'quick' else 40):
+        for fl in ((False, False, False), (True, False, False)):
+            out.append((('dup-opp', base + 600 + i), fl))
     types = list(T4_TYPES)
     for ta in types:
         out.append(('EQ', (ta, ta)))
